@@ -83,7 +83,8 @@ func oraclePartial(x *xcase, r *xresult) (bool, string) {
 			if x.off > x.flen {
 				at = x.off
 			}
-			if cd, bad := plan[uint64(at)]; bad && (x.api == "writeto" || x.off+x.n > x.flen) {
+			// (a read into an empty buffer sends no request at all: nothing can be refused)
+			if cd, bad := plan[uint64(at)]; bad && (x.api == "writeto" || (x.n > 0 && x.off+x.n > x.flen)) {
 				lowest, code = at, cd
 			}
 			// which requests a path sends at and beyond the end differs (a follow-up at the end itself, or only the next chunk on
